@@ -167,6 +167,10 @@ def check(ctx):
     else:
         ctx.note(f"{sget.qual}: retry/segment loop shape not recognised - its bound is decided by C01's model scenarios only")
 
+    ctx.rule("R7", "a reply is only served to the request it was sent for: a reply that arrives after its request has given up is removed by the discard consumer after one polling interval also while the request lock is held (retry pause, queued callers) - otherwise it sits at the head and is handed to the next request of that verb at once (C07's discard-consumer model borrowed)")
+    from .c07 import discard_consumer_model
+    discard_consumer_model(ctx.borrowed("R7", "C07"), repo, "R7")
+
     # ---- R1 ---------------------------------------------------------------
     get = repo.own_method(PROTO, "get")
     r = retry_loop_rules(ctx, repo, get, "R1", "self")
